@@ -526,6 +526,17 @@ class Engine:
             self._restore_invariants(out)
         if self.index_pointer_walks:
             self._index_pointer_walks(out)
+        # a path whose conditions have become false by what the passes above established (a status that is invariantly
+        # 0 tested `< 0`) is not a path of the function
+        def dead(p):
+            for c, _n in p.conds:
+                if c[0] == 'cmp' and is_c(c[2]) and is_c(c[3]):
+                    a, b = c[2][1], c[3][1]
+                    if not {'<': a < b, '<=': a <= b, '==': a == b, '!=': a != b, '>': a > b, '>=': a >= b}.get(c[1], True):
+                        return True
+            return False
+        if any(dead(p) for p in out):
+            out[:] = [p for p in out if not dead(p)]
         return out
 
     def _restore_invariants(self, out):
